@@ -276,6 +276,7 @@ type vWorld struct {
 	// histories: a round after the first one on the same handler (op `again`: the handler
 	// configuration cimd/pre/dcr/init is the one of the case's `auth` record)
 	again     bool
+	dup       []string // names of the challenge parameters that were given a decoy duplicate (tags only)
 	begin     bool // op `begin`: as `again`, but the call is left in flight (finished by a later `end <k>`)
 	round     int  // 0-based number of the attempt in its case (start order)
 	asChanged bool // this round asks another authorization server for metadata than the last round that got that far
@@ -348,7 +349,15 @@ func (w *vWorld) encodeMap(name string, m map[string]vResp) string {
 	return strings.Join(parts, ";")
 }
 
+// encode: the op of the world; `dup=` (names of challenge parameters with a decoy duplicate) is for the tags only.
 func (w *vWorld) encode() string {
+	if len(w.dup) == 0 {
+		return w.encode0()
+	}
+	return w.encode0() + " dup=" + strings.Join(w.dup, ",")
+}
+
+func (w *vWorld) encode0() string {
 	pre := "none"
 	if w.pre != nil {
 		pre = w.pre.tok()
@@ -492,6 +501,9 @@ func decodeWorld(op string) (*vWorld, error) {
 	w.status, _ = strconv.Atoi(kv["st"])
 	w.cimd, w.dcr, w.init, w.hm = kv["cimd"] == "1", kv["dcr"] == "1", kv["init"] == "1", kv["hm"] == "1"
 	w.nts, w.ntFail = kv["nts"] == "1", kv["nt"] == "E"
+	if d := kv["dup"]; d != "" {
+		w.dup = strings.Split(d, ",")
+	}
 	w.sf, w.rr = kv["sf"], kv["rr"] == "1"
 	if w.sf == "" {
 		w.sf = "n"
@@ -1110,6 +1122,10 @@ type vAttempt struct {
 	tokParked  chan struct{} // RoundTrip -> harness
 	tokRelease chan struct{} // harness -> RoundTrip
 	held       bool
+	holdCtor    bool          // hold the attempt inside the configured NewTokenSource (after the exchange, before `h.tokenSource = ts`)
+	ctorParked  chan struct{} // constructor -> harness
+	ctorRelease chan struct{} // harness -> constructor
+	inCtor      bool
 	before   oauth2.TokenSource
 	err      error
 	panicked bool
@@ -1128,6 +1144,11 @@ type vWrappedTS struct{ oauth2.TokenSource }
 // context.Background() (not the attempt's), so it answers for the attempt that is finishing.
 func (hs *vHandler) newTokenSource(ctx context.Context, cfg *oauth2.Config, tok *oauth2.Token) (oauth2.TokenSource, error) {
 	if a := hs.finishing; a != nil {
+		if a.holdCtor {
+			a.holdCtor = false
+			a.ctorParked <- struct{}{}
+			<-a.ctorRelease
+		}
 		if a.w.ntFail {
 			return nil, vNtsErr
 		}
@@ -1258,7 +1279,7 @@ func (hs *vHandler) begin(w *vWorld) (a *vAttempt, obs string) {
 	r.addAll()
 	hs.cur = r
 	a = &vAttempt{k: len(hs.att), w: w, run: r, parked: make(chan string), release: make(chan struct{}), done: make(chan struct{}),
-		tokParked: make(chan struct{}), tokRelease: make(chan struct{})}
+		tokParked: make(chan struct{}), tokRelease: make(chan struct{}), ctorParked: make(chan struct{}), ctorRelease: make(chan struct{})}
 	first := true
 	r.onToken = func() {
 		if a.holdTok && first {
@@ -1358,6 +1379,37 @@ func (hs *vHandler) answer(k int) string {
 	}
 }
 
+// ctor lets attempt k go on (from the fetcher or the token request it is held at) up to the configured
+// NewTokenSource and holds it INSIDE the constructor: the code was exchanged, the next statement of the attempt is
+// `h.tokenSource = ts`. "ctor" = held there; "done" = its Authorize call returned without reaching it.
+func (hs *vHandler) ctor(k int) string {
+	if k < 0 || k >= len(hs.att) || hs.att[k].ended {
+		return "no-such-attempt"
+	}
+	a := hs.att[k]
+	if a.inCtor || a.inst != "" || !(a.held || a.isParked) {
+		return "done"
+	}
+	a.holdCtor = true
+	a.before, _ = hs.h.TokenSource(context.Background())
+	hs.finishing = a
+	if a.held {
+		a.held = false
+		close(a.tokRelease)
+	} else {
+		a.isParked = false
+		close(a.release)
+	}
+	select {
+	case <-a.ctorParked:
+		a.inCtor = true
+		return "ctor"
+	case <-a.done:
+		hs.observe(a)
+		return "done"
+	}
+}
+
 // end lets attempt k run to its end (from the fetcher, or from the token request it is held at) and waits
 // until its Authorize call has returned.
 func (hs *vHandler) end(k int) (a *vAttempt, obs string) {
@@ -1370,6 +1422,10 @@ func (hs *vHandler) end(k int) (a *vAttempt, obs string) {
 		return a, a.obs
 	}
 	switch {
+	case a.inCtor:
+		a.before, _ = hs.h.TokenSource(context.Background())
+		close(a.ctorRelease)
+		<-a.done
 	case a.held:
 		a.before, _ = hs.h.TokenSource(context.Background())
 		hs.finishing = a
@@ -1951,6 +2007,32 @@ func (g *vGen) renderHeader() {
 			ps = append(ps, sc)
 		}
 		g.rng.Shuffle(len(ps), func(a, b int) { ps[a], ps[b] = ps[b], ps[a] })
+		// duplicate parameters: the LAST one of a name counts (`params[strings.ToLower(key)] = value`). A decoy of the
+		// same name (any case) is put somewhere BEFORE the parameter the structure of the case stands for: a foreign /
+		// unsafe / script resource_metadata URL (one with a quoted comma), another error code, another scope.
+		if g.p(25) {
+			for _, d := range [][2]string{
+				{"resource_metadata=", []string{`resource_metadata="http://evil.example/decoy"`, `RESOURCE_METADATA="javascript:alert(1)"`,
+					`resource_metadata="https://evil.example:8443/decoy, \"x\""`, `Resource_metadata=https://evil.example:8443/decoy`}[g.rng.Intn(4)]},
+				{"error=", []string{`error="invalid_token"`, `ERROR=insufficient_scope`, `Error="a, b"`}[g.rng.Intn(3)]},
+				{"scope=", []string{`scope="admin offline_access"`, `SCOPE=admin`}[g.rng.Intn(2)]},
+			} {
+				if !g.p(50) {
+					continue
+				}
+				for i, x := range ps {
+					if strings.HasPrefix(strings.ToLower(x), d[0]) {
+						j := g.rng.Intn(i + 1)
+						ps = append(ps[:j], append([]string{d[1]}, ps[j:]...)...)
+						w.dup = append(w.dup, strings.TrimSuffix(d[0], "="))
+						break
+					}
+				}
+			}
+		}
+		if g.p(10) {
+			ps = append(ps, `realm2="a \"quoted\", part"`)
+		}
 		sep := []string{", ", ",", " , "}[g.rng.Intn(3)]
 		if len(ps) == 0 {
 			parts = append(parts, name)
@@ -2250,6 +2332,9 @@ func flowTags(w *vWorld, obs string) []string {
 	if strings.Contains(obs, "inst=1") {
 		tags = append(tags, "installed")
 	}
+	for _, d := range w.dup {
+		tags = append(tags, "duplicate-param:"+d)
+	}
 	if w.hm {
 		tags = append(tags, "malformed-header")
 	}
@@ -2382,21 +2467,33 @@ func runOps(out *verifOut, cs string, ops []string, tag string) {
 			}
 			obs := hs.answer(k)
 			out.line(cs, op, obs, tag, "answer", "answer-"+obs)
+		case strings.HasPrefix(op, "ctor "):
+			k, err := strconv.Atoi(strings.TrimSpace(op[5:]))
+			if err != nil || hs == nil {
+				out.line(cs, op, "bad-op", tag)
+				continue
+			}
+			obs := hs.ctor(k)
+			out.line(cs, op, obs, tag, "ctor", "ctor-"+obs)
 		case strings.HasPrefix(op, "end "):
 			k, err := strconv.Atoi(strings.TrimSpace(op[4:]))
 			if err != nil || hs == nil {
 				out.line(cs, op, "bad-op", tag)
 				continue
 			}
-			inFlight, heldOthers := 0, 0
+			inFlight, heldOthers, ctorOthers := 0, 0, 0
 			for _, x := range hs.att {
-				if !x.ended && (x.isParked || x.held) {
+				if !x.ended && (x.isParked || x.held || x.inCtor) {
 					inFlight++
 					if x.held && x.k != k {
 						heldOthers++
 					}
+					if x.inCtor && x.k != k {
+						ctorOthers++
+					}
 				}
 			}
+			selfCtor := k >= 0 && k < len(hs.att) && hs.att[k].inCtor
 			a, obs := hs.end(k)
 			if a == nil {
 				out.line(cs, op, obs, tag)
@@ -2404,13 +2501,19 @@ func runOps(out *verifOut, cs string, ops []string, tag string) {
 			}
 			book(a.w, obs)
 			tags := append(flowTags(a.w, obs), tag, "end")
+			if selfCtor && ctorOthers > 0 && strings.Contains(obs, "inst=1") {
+				tags = append(tags, "installed-while-another-attempt-is-about-to-install")
+			}
+			if selfCtor && strings.Contains(obs, "inst=1") && len(hs.installed) > 1 {
+				tags = append(tags, "racing-finishes-both-installed")
+			}
 			if heldOthers > 0 && strings.Contains(obs, "inst=1") {
 				tags = append(tags, "installed-while-a-token-request-of-another-attempt-is-under-way")
 			}
 			if a.held && strings.Contains(obs, "inst=1") {
 				tags = append(tags, "installed-after-being-held-at-the-token-endpoint")
 			}
-			if (a.isParked || a.held) && inFlight > 1 {
+			if (a.isParked || a.held || a.inCtor) && inFlight > 1 {
 				tags = append(tags, fmt.Sprintf("in-flight=%d", inFlight))
 				if strings.Contains(obs, "inst=1") {
 					tags = append(tags, "installed-while-others-in-flight")
@@ -2485,7 +2588,7 @@ func TestVerifOAuthFlow(t *testing.T) {
 			out.line("pool", "reset", "bad-pool-parses:"+hxs(s), "reset")
 		}
 	}
-	if runCorpusAndReplay(out, "auth ", "again ", "begin ", "end ", "answer ", "new ") {
+	if runCorpusAndReplay(out, "auth ", "again ", "begin ", "end ", "answer ", "ctor ", "new ") {
 		return
 	}
 	// handler construction: which configurations become a handler, with which redirect URL / application type
@@ -2518,6 +2621,15 @@ func TestVerifOAuthFlow(t *testing.T) {
 			for _, k := range open {
 				if rng.Intn(100) < 35 {
 					ops = append(ops, fmt.Sprintf("answer %d", k))
+				}
+			}
+			// with NewTokenSource configured: some are taken up to the LAST statement (held inside the constructor, the
+			// code exchanged, `h.tokenSource = ts` next) — two or three of them race for the installation
+			if g.base != nil && g.base.nts {
+				for _, k := range open {
+					if rng.Intn(100) < 60 {
+						ops = append(ops, fmt.Sprintf("ctor %d", k))
+					}
 				}
 			}
 			rng.Shuffle(len(open), func(a, b int) { open[a], open[b] = open[b], open[a] })
@@ -2641,10 +2753,16 @@ func genChallengeString(rng *rand.Rand) string {
 	var cs []string
 	for i := 0; i < n; i++ {
 		s := schemes[rng.Intn(len(schemes))]
-		np := rng.Intn(4)
+		np := rng.Intn(5)
 		var ps []string
 		for j := 0; j < np; j++ {
 			k, v := keys[rng.Intn(len(keys))], vals[rng.Intn(len(vals))]
+			if j > 0 && rng.Intn(4) == 0 {
+				// a duplicate of an earlier parameter of this challenge, in another case: the last one counts
+				prev, _, _ := strings.Cut(ps[rng.Intn(len(ps))], "=")
+				prev = strings.TrimSpace(prev)
+				k = []string{strings.ToUpper(prev), strings.ToLower(prev), prev}[rng.Intn(3)]
+			}
 			if rng.Intn(4) == 0 && !strings.ContainsAny(v, "\", \\") {
 				ps = append(ps, k+"="+v)
 			} else {
